@@ -329,8 +329,14 @@ def _sock_scenario(draw, gen: int):
     sends = draw(st.lists(st.tuples(st.integers(0, 12 * 16).map(lambda x: x / 16.0), sockops.kind_and_params(gen),
                                     st.sampled_from(["idem", "nonidem", "conn", [1, 60.0]])).map(list), max_size=10))
     losses = draw(st.lists(st.tuples(st.integers(1, 20 * 16).map(lambda x: x / 16.0), st.integers(0, 3)).map(list), max_size=2))
+    # write faults: the n-th write from instant t on fails, and a message is submitted in that same instant - so the
+    # reset runs inside the *caller's* task (not one of the socket's own background tasks)
+    faults = draw(st.lists(st.tuples(st.integers(1, 12 * 16).map(lambda x: x / 16.0), st.integers(1, 3), sockops.kind_and_params(gen)).map(list),
+                           max_size=2))
+    for t, _n, kp in faults:
+        sends.append([t, kp, "idem"])
     return {"mode": "sock", "gen": gen, "script": script, "sends": sorted(sends, key=lambda s: s[0]), "losses": sorted(losses),
-            "close_latency": draw(st.sampled_from([0.0, 0.0, 0.125, 1.0]))}
+            "faults": sorted(faults, key=lambda f: f[0]), "close_latency": draw(st.sampled_from([0.0, 0.0, 0.125, 1.0]))}
 
 
 def _mk_sock(case):
@@ -350,6 +356,12 @@ def _mk_sock(case):
             for _ in range(k):
                 rig.net.script.append(("refuse", 0.0))
             tr.peer_reset()
+    def arm(n):
+        tr = rig.net.current
+        if tr is not None and tr.alive:
+            tr.fail_write(n)
+    for t, n, _kp in case.get("faults", ()):
+        handles.append(rig.loop.call_at(t, arm, n))
     for t, kp, pol in case["sends"]:
         handles.append(rig.loop.call_at(t, send, kp, pol))
     for t, k in case["losses"]:
@@ -369,6 +381,8 @@ def check_sock(case, when, stats: Stats | None):
         rig.open()
         rig.loop.advance(horizon)
         instants = sorted({e[0] for e in rig.net.log} | {t for t, *_ in case["sends"]} | {t + 2.0 for t, _ in case["losses"]})
+        if any(e[1] == "write_fault" for e in rig.net.log):
+            full["write_fault"] = True
     finally:
         rig.dispose()
     T, same_instant = _choose(instants, when, horizon)
@@ -405,6 +419,8 @@ def check_sock(case, when, stats: Stats | None):
         classes = ["sock", f"gen{case['gen']}", "phase:connected" if ph[0] else ("phase:connecting" if ph[1] else "phase:backoff-or-idle")]
         if ph[2]:
             classes.append("pending-messages")
+        if full.get("write_fault"):
+            classes.append("write-fault-in-caller-task")
         if same_instant:
             classes.append("same-instant")
         if stats is not None:
@@ -431,6 +447,12 @@ def _mk_sock_on(rig, case):
             for _ in range(k):
                 rig.net.script.append(("refuse", 0.0))
             tr.peer_reset()
+    def arm(n):
+        tr = rig.net.current
+        if tr is not None and tr.alive:
+            tr.fail_write(n)
+    for t, n, _kp in case.get("faults", ()):
+        handles.append(rig.loop.call_at(t, arm, n))
     for t, kp, pol in case["sends"]:
         handles.append(rig.loop.call_at(t, send, kp, pol))
     for t, k in case["losses"]:
@@ -450,7 +472,7 @@ def shards(tier: str):
 
 def floors(tier: str):
     return {"same-instant": 50, "phase:connecting": 20, "phase:backoff-or-idle": 20, "phase:handshake": 10, "phase:initialised": 20,
-            "pending-messages": 10, "reinit": 30}
+            "pending-messages": 10, "reinit": 30, "write-fault-in-caller-task": 40}
 
 
 def run_shard(spec, seed: int, tier: str):
